@@ -207,6 +207,21 @@ def build_scenario(spec):
 def e2e_run(job):
     spec, opts = job
     files = build_scenario(spec)
+    if spec.get("shift_probe"):
+        # a stage between the sorts rewrites `ts` IN PLACE: with -O shift a slice that starts a few ns before its
+        # predecessor on the lane has ended is moved behind that end; a slice of another lane / rank starts inside the
+        # few-ns window - the exported order has to follow the timestamps that are written
+        names = sorted(files)
+        t0 = max((e.get("ts", 0) + e.get("dur", 0) for evs in files.values() for e in evs if isinstance(e.get("ts"), (int, float))),
+                 default=0) + 64.0
+        pid_of = {fn: next((e["pid"] for e in files[fn] if "pid" in e), i) for i, fn in enumerate(names)}
+        for j in range(4):
+            b = t0 + 64.0 * j
+            fa, fb = names[0], names[-1]
+            files[fa] += [{"ph": "X", "name": "shift_a", "pid": pid_of[fa], "tid": 707, "ts": b, "dur": 10.003, "args": {"uid": f"sa{j}"}},
+                          {"ph": "X", "name": "shift_b", "pid": pid_of[fa], "tid": 707, "ts": b + 10.0, "dur": 5.0, "args": {"uid": f"sb{j}"}}]
+            files[fb] += [{"ph": "X", "name": "shift_other", "pid": pid_of[fb], "tid": 708, "ts": b + 10.0 + [0.002, 0.001, 0.003, 0.004][j],
+                           "dur": 1.0, "args": {"uid": f"so{j}"}}]
     if "--tb" in opts and spec["seed"] % 2 == 0:
         # device-only rank files (no host slice at all): the tool synthesizes the process metadata itself
         files = {fn: [e for e in evs if "attr" in e] for fn, evs in files.items()}
@@ -357,6 +372,8 @@ def run(ctx: Ctx):
             jobs.append((spec, o))
         if spec["R"] >= 2 and spec["groups"] >= 1:
             jobs.append((dict(spec, probe_ties=True), ["--flow"] + ([] if s % 2 else ["-M"])))
+        if s % 2 == 1 or not ctx.quick():
+            jobs.append((dict(spec, shift_probe=True), ["-O", "shift"] + [["-C", "prep_queue", "power_ts4"], ["-C"], []][(s // 2) % 3]))
     results = par.pmap(e2e_run, jobs)
     for (spec, o), res in zip(jobs, results):
         case = {"kind": "e2e", "spec": spec, "opts": o}
